@@ -93,7 +93,9 @@ func zzxRefContradicting(n *zzxNode, h *blockchain.BlockHeader) bool {
 //zz:stub time.Now zzxStubNow
 //zz:quick extra=1 pairs=0 budget=300s
 //zz:thorough extra=2 pairs=1 budget=60m
-func zzH_C03_accept_implies_rules(t *zzT) {
+func zzH_C03_accept_implies_rules(t *zzT) { zzxAcceptStep(t) }
+
+func zzxAcceptStep(t *zzT) {
 	zzxDevPick = t.Choice("deviation", len(zzxDevNames))
 	zzxDevPick2 = 0
 	if t.Param("pairs", 0) == 1 {
@@ -244,6 +246,7 @@ func zzH_C03_accept_implies_rules(t *zzT) {
 			t.Assert(n.drained(n.chFinal) == 0, "no finalization event without a raise")
 		}
 		t.Assert(n.drained(n.chNew) == 1, "new-block event emitted once")
+		zzxRestartCheck(t, n)
 		t.Reach("accepted")
 		return
 	}
@@ -254,5 +257,164 @@ func zzH_C03_accept_implies_rules(t *zzT) {
 	}
 	t.Assert(bytes.Equal(n.chain.LastBlock().Header.ID, tip.ID), "rejected block leaves the tip unchanged")
 	t.Assert(n.drained(n.chNew) == 0 && n.drained(n.chFinal) == 0, "rejected block emits no event")
+	zzxRestartCheck(t, n)
 	t.Reach("rejected")
 }
+
+func zzxFilter(kvs []db.KeyValue, skip func(k []byte) bool) []db.KeyValue {
+	out := []db.KeyValue{}
+	for _, kv := range kvs {
+		if !skip(kv.Key()) {
+			out = append(out, kv)
+		}
+	}
+	return out
+}
+
+// C04.a + C13 (removal) + C05.d: deleteBlock never removes a block at or below the finalized height
+// (finalized height fully symbolic), a refused or failed delete changes nothing, and a successful
+// delete is one atomic write after the application revert, restores the previous tip, emits one
+// delete event and keeps the block as a temporary block iff requested.
+//
+//zz:opt loop=80 lockdiscipline=off require=deleted,refused
+//zz:stub time.Now zzxStubNow
+func zzH_C04_delete_guard(t *zzT) { zzxDeleteStep(t) }
+
+func zzxDeleteStep(t *zzT) {
+	n := zzxNewNode(t, 2, 2, 1)
+	tipBlock := n.chain.LastBlock()
+	prevHeader, _ := n.chain.DataAccess().GetBlockHeaderByHeight(tipBlock.Header.Height - 1)
+	// arbitrary stored finalized height
+	f := t.U32("finalizedHeight")
+	n.database.Set([]byte{27}, bytes.FromUint32(f))
+	db.ZZMonitorReset(n.database)
+	if t.Bool("abi.revertFails") {
+		n.abi.failAt = "Revert"
+	}
+	saveTemp := t.Bool("saveTemp")
+	before := db.ZZDump(n.database)
+	err := n.ex.deleteBlock(context.Background(), tipBlock, saveTemp)
+	writes, direct, _ := db.ZZMonitor(n.database)
+	if err != nil {
+		t.Assert(zzxDumpEqual(before, db.ZZDump(n.database)), "refused delete leaves the database unchanged")
+		t.Assert(bytes.Equal(n.chain.LastBlock().Header.ID, tipBlock.Header.ID), "refused delete leaves the tip unchanged")
+		t.Assert(n.drained(n.chDelete) == 0, "refused delete emits no event")
+		if writes >= 0 {
+			t.Assert(writes == 0 && direct == 0, "refused delete performs no durable write")
+		}
+		t.Reach("refused")
+		return
+	}
+	t.Assert(tipBlock.Header.Height > f, "a block at or below the finalized height is never removed")
+	if writes >= 0 {
+		t.Assert(writes == 1 && direct == 0, "removal: exactly one atomic batch write and no direct writes")
+		t.Assert(n.abi.writesAtRevert == 0, "removal: application revert precedes the database write")
+	}
+	t.Assert(bytes.Equal(n.chain.LastBlock().Header.ID, prevHeader.ID), "the previous block is the tip again")
+	t.Assert(n.drained(n.chDelete) == 1, "one delete event")
+	_, hdrStill := n.database.Get(bytes.Join([]byte{3}, tipBlock.Header.ID))
+	_, idxStill := n.database.Get(bytes.Join([]byte{4}, bytes.FromUint32(tipBlock.Header.Height)))
+	_, diffStill := n.database.Get(bytes.Join([]byte{51}, bytes.FromUint32(tipBlock.Header.Height)))
+	t.Assert(!hdrStill && !idxStill && !diffStill, "header, height index and state diff of the removed block are gone")
+	tmp, tmpExist := n.database.Get(bytes.Join([]byte{7}, bytes.FromUint32(tipBlock.Header.Height)))
+	t.Assert(tmpExist == saveTemp, "temporary copy kept iff requested")
+	if tmpExist {
+		t.Assert(bytes.Equal(tmp, tipBlock.Encode()), "temporary copy is the removed block")
+	}
+	fin, _ := n.chain.DataAccess().GetFinalizedHeight()
+	t.Assert(fin == f, "delete does not lower the finalized height")
+	zzxRestartCheck(t, n)
+	t.Reach("deleted")
+}
+
+// C05: applying a valid block and deleting it again restores the exact persistent state (consensus
+// store, indexes, cached tip) apart from the finalized-height marker and the optional temporary copy.
+//
+//zz:opt loop=80 lockdiscipline=off
+//zz:stub time.Now zzxStubNow
+//zz:quick extra=1
+//zz:thorough extra=2
+func zzH_C05_apply_delete_roundtrip(t *zzT) {
+	n := zzxNewNode(t, 2, t.Param("extra", 1), 2)
+	ntx := t.Range("ntx", 0, 1)
+	var txs []*blockchain.Transaction
+	if ntx == 1 {
+		txs = append(txs, zzxTx(4, "token"))
+	}
+	slots := t.Range("slots", 1, 2)
+	tip := n.chain.LastBlock().Header
+	p0, c0, f0 := n.heights()
+	skip := func(k []byte) bool { return len(k) > 0 && (k[0] == 27 || k[0] == 7) }
+	before := zzxFilter(db.ZZDump(n.database), skip)
+	b := n.nextValid(slots, txs)
+	if err := n.ex.processValidated(context.Background(), b, false, false); err != nil {
+		t.Fail("valid block rejected")
+	}
+	mid := zzxFilter(db.ZZDump(n.database), skip)
+	t.Assert(!zzxDumpEqual(before, mid), "applying a block changes the database")
+	saveTemp := t.Bool("saveTemp")
+	err := n.ex.deleteBlock(context.Background(), n.chain.LastBlock(), saveTemp)
+	fin, _ := n.chain.DataAccess().GetFinalizedHeight()
+	if err != nil {
+		t.Assert(b.Header.Height <= fin, "the tip can be deleted unless it is already final")
+		t.Reach("final-not-deletable")
+		return
+	}
+	after := zzxFilter(db.ZZDump(n.database), skip)
+	t.Assert(zzxDumpEqual(before, after), "state after apply+delete equals the state before (all indexes and the consensus store)")
+	t.Assert(bytes.Equal(n.chain.LastBlock().Header.ID, tip.ID), "cached tip restored")
+	p1, c1, f1 := n.heights()
+	t.Assert(p0 == p1 && c0 == c1 && f0 == f1, "BFT heights restored")
+	t.ObserveU64("finalized", uint64(fin))
+	t.Reach("restored")
+}
+
+
+// zzxRestartCheck (C13.c): a node restarted on the database as it is now finds a tip whose data is
+// complete and whose consensus (BFT) store is at exactly that tip.
+func zzxRestartCheck(t *zzT, n *zzxNode) {
+	chain2 := blockchain.NewChain(&blockchain.ChainConfig{ChainID: zzxChainID, MaxTransactionsLength: 300, MaxBlockCache: 5, KeepEventsForHeights: -1})
+	chain2.Init(n.genesis, n.database)
+	err := chain2.PrepareCache()
+	last := chain2.LastBlock()
+	t.Assert(err == nil && last != nil, "restart: the highest height index entry dereferences to a complete block")
+	if err != nil || last == nil {
+		return
+	}
+	t.Assert(bytes.Equal(last.Header.ID, n.chain.LastBlock().Header.ID), "restart: the stored tip is the in-memory tip")
+	_, diffExist := n.database.Get(bytes.Join([]byte{51}, bytes.FromUint32(last.Header.Height)))
+	t.Assert(diffExist || last.Header.Height == zzxGenesisH, "restart: the tip has its revert diff")
+	_, aboveExist := n.database.Get(bytes.Join([]byte{51}, bytes.FromUint32(last.Header.Height+1)))
+	t.Assert(!aboveExist, "restart: no revert diff without its block")
+	ok, cerr := n.ex.liskBFT.API().IsHeaderContradictingChain(n.store(), last.Header.Readonly())
+	_ = ok
+	t.Assert(cerr == nil, "restart: consensus store readable")
+	cur, verr := n.ex.liskBFT.API().GetCurrentValidators(n.store())
+	if last.Header.Height > zzxGenesisH {
+		t.Assert(verr == nil && len(cur) > 0, "restart: consensus store holds the window of the tip")
+	}
+}
+
+// C13.a/b/c (commit side): see zzxAcceptStep — exactly one atomic write per accepted block, none per
+// rejected block, application commit before it, restart finds a consistent tip in both outcomes.
+//
+//zz:opt loop=80 lockdiscipline=off require=accepted,rejected
+//zz:stub time.Now zzxStubNow
+//zz:quick extra=1 pairs=0 budget=300s
+//zz:thorough extra=2 pairs=0 budget=30m
+func zzH_C13_commit_atomic(t *zzT) { zzxAcceptStep(t) }
+
+// C13.a/b/c (removal side): see zzxDeleteStep.
+//
+//zz:opt loop=80 lockdiscipline=off require=deleted,refused
+//zz:stub time.Now zzxStubNow
+func zzH_C13_remove_atomic(t *zzT) { zzxDeleteStep(t) }
+
+// C04.b: finalized height raised to the precommitted height in the same write, event iff raised
+// (assertions of zzxAcceptStep).
+//
+//zz:opt loop=80 lockdiscipline=off require=accepted,rejected
+//zz:stub time.Now zzxStubNow
+//zz:quick extra=2 pairs=0 budget=300s
+//zz:thorough extra=3 pairs=0 budget=30m
+func zzH_C04_finalized_height_step(t *zzT) { zzxAcceptStep(t) }
